@@ -85,7 +85,8 @@ def search_reopen_merges(job):
     import numbers_parser
     warnings.simplefilter("ignore")
     data = os.path.join(os.path.dirname(os.path.dirname(os.path.dirname(numbers_parser.__file__))), "tests", "data")
-    cases = [{"size": 4, "rects": [[0, 0, 1, 1]]}, {"size": 4, "rects": [[1, 1, 1, 3], [2, 0, 3, 0]]}, {"size": 4, "rects": [[0, 1, 2, 1]], "second": [[3, 2, 3, 3]]}]
+    cases = [{"size": 4, "rects": [[0, 0, 1, 1]]}, {"size": 4, "rects": [[1, 1, 1, 3], [2, 0, 3, 0]]}, {"size": 4, "rects": [[0, 1, 2, 1]], "second": [[3, 2, 3, 3]]},
+             {"size": 4, "rects": [[1, 1, 1, 3]], "second": [[0, 0, 0, 1]]}, {"size": 4, "rects": [[2, 0, 3, 1]], "second": [[0, 2, 1, 3], [0, 0, 0, 1]]}]
     for name, sheet in (("test-4.numbers", 0), ("test-9.numbers", 0), ("test-9.numbers", 1), ("issue-77.numbers", 0)):
         f = os.path.join(data, name)
         if os.path.exists(f):
